@@ -67,7 +67,7 @@ theorem asConfig_ok {w : IniWorld} {l10nbase : Text} {cfg : Loaded} {r : Result}
     ∃ ls, r.pc = .mk none none (PM.dupdate [] [(l10nBaseName, abspath w.cwd l10nbase)])
               (cfg.directories.map ruleOfDir) [] (some ls) [] [] ∧
       ∃ ap, cfg.allPath = some ap ∧ w.locales.lookup (normpath ap) = some ls := by
-  unfold asConfig at h
+  unfold asConfig asConfigAbs at h
   simp only at h
   split at h
   · cases h
